@@ -56,6 +56,12 @@ func main() {
 		}
 	}
 	known := loadKnown(filepath.Join(*verif, "known_findings.json"))
+	P.KnownLabels = map[string]bool{}
+	for _, f := range known.Findings {
+		if f.Status == "known" && f.Property == prop {
+			P.KnownLabels[f.Harness+"|"+f.Label] = true
+		}
+	}
 	var results []*sym.HarnessResult
 	exit := 0
 	for i := range P.Suite.Harnesses {
